@@ -89,6 +89,10 @@ def variants(tier, half):
         # reaches exactly the caller that was processing it, and the other sender's event is
         # processed normally or dropped with the queue - never stranded, never run twice
         out.append(((("a",), ("b",)), "fault"))
+        # two machines of one class, each driven by its own thread: whatever the class keeps
+        # (descriptors, registries, caches) must not let one instance's trigger reach the other
+        out.append(((("a",), ("a",)), "two-machines"))
+        out.append(((("a", "b"), ("a",)), "two-machines"))
         # the second sender first attaches a listener whose only callback is a coroutine
         # function (never awaited on the sync engine - C05's known finding - and irrelevant
         # here): attaching must not disturb the mutual exclusion of the events
@@ -142,6 +146,36 @@ def check_results(env, calls, idents):
             return (f"O8 result: the call sending {c['tag']} processed {first} first (then "
                     f"{[t for t in dict.fromkeys(r.tag for r in mine)][1:]}) but returned {res!r}")
     return None
+
+
+def check_two(env, sms, events, tags, errors, deadlock):
+    """Sender i drives machine i (same class).  Every machine runs exactly its own sender's
+    events, in order, and ends where they lead; nothing of the other sender reaches it."""
+    if deadlock:
+        return deadlock
+    if errors:
+        t, e = errors[0]
+        return f"sender {t} raised {type(e).__name__}: {e}"
+    for i, sm in enumerate(sms):
+        recs = [r for r in env.flat if r.mid == id(sm) and r.event != "__initial__"]
+        foreign = sorted({r.tag for r in recs if r.tag not in tags[i]})
+        if foreign:
+            return (f"M1 machine {i} ran callbacks for {foreign}: events sent to the other "
+                    f"instance of the class")
+        cur = 0
+        for k, t in enumerate(tags[i]):
+            ev = events[i][k]
+            names = [r.cid[1] for r in recs if r.tag == t]
+            want = ["before_transition", "on_transition", "after_transition"] if ev == "c" else \
+                PATTERN_A
+            if names != want:
+                return f"M2 machine {i}, event {t}: callbacks {names}, expected {want}"
+            cur = (cur + NEXT[ev]) % 3
+        if sm.current_state_value != f"s{cur}":
+            return f"M3 machine {i}: final state {sm.current_state_value}, expected s{cur}"
+        if queue_len(sm) or lock_held(sm):
+            return f"O4 stranded: machine {i} queue {queue_len(sm)}, lock {lock_held(sm)}"
+    return None, ("two",)
 
 
 FAULT_K = 1
@@ -486,6 +520,12 @@ def run_threads(ch, events, nested, files, only_lines=None, stateful=False):
         env.record_thread = True
         env.yield_hook = tsched.yield_point
         impl.construct()
+        two = nested == "two-machines"
+        sms = [impl.sm]
+        if two:
+            impl2 = Impl(built, Cfg("sync", True, gated, "direct"), env=env)
+            impl2.construct()
+            sms.append(impl2.sm)
         env.top, env.flat, env.stack = [], [], []
         tags = [[("same" if anon else f"S{i}.{k}") for k in range(len(evs))]
                 for i, evs in enumerate(events)]
@@ -515,7 +555,7 @@ def run_threads(ch, events, nested, files, only_lines=None, stateful=False):
                                      tuple(sorted(c2["tag"] for c2 in calls
                                                   if c2["ret"] is not None)))}
                     calls.append(call)
-                    call["result"] = sm.send(ev, tag=tags[i][k])
+                    call["result"] = (sms[i] if two else sm).send(ev, tag=tags[i][k])
                     env.seq += 1
                     call["ret"] = env.seq
                 progress[i] = len(events[i])
@@ -545,11 +585,13 @@ def run_threads(ch, events, nested, files, only_lines=None, stateful=False):
             if c["ret"] is None:
                 c["ret"] = float("inf")
         r = check_gated(env, sm, calls, s.errors, s.deadlock)
+    elif two:
+        r = check_two(env, sms, events, tags, s.errors, s.deadlock)
     elif fault:
         r = check_fault(env, sm, calls, s.errors, s.deadlock, idents)
     else:
         r = check(env, sm, tags, s.errors, s.deadlock)
-    if isinstance(r, tuple) and r[0] is None and not anon and not gated and not fault:
+    if isinstance(r, tuple) and r[0] is None and not anon and not gated and not fault and not two:
         # (on the gated machine an ignored event leaves no callback behind: which event a call
         # processed first cannot be observed there)
         r8 = check_results(env, calls, idents) or check_fifo(env, calls, r[1])
@@ -679,7 +721,7 @@ def explore_variant(res, half, vi, variant, tier, roots=None, root_run=True):
 def _cat(msg):
     if "O4K" in msg:
         return "event-enqueued-while-failing-drainer-holds-the-lock-is-stranded"
-    for key in ("NONDETERMINISTIC", "O1", "O2", "O3", "O4", "O5", "O7", "O8", "O9", "F1", "F2", "F3", "F4",
+    for key in ("NONDETERMINISTIC", "O1", "O2", "O3", "O4", "O5", "O7", "O8", "O9", "M1", "M2", "M3", "F1", "F2", "F3", "F4",
                 "F5", "deadlock", "hang", "raised",
                 "never finished", "suspended", "pending"):
         if key in msg:
@@ -729,6 +771,8 @@ def run(tier, seed):
     # explicit-state, unbounded preemptions
     for vi, (events, nested) in enumerate(variants(tier, "threads")):
         n, total_sends = len(events), sum(map(len, events))
+        if nested == "two-machines":
+            continue      # the hashed state describes one machine only
         if n == 2 and (tier == "thorough" or (total_sends == 2 and nested in (False, "anon"))):
             blocks.append(("stateful-line", tier, vi, None))
         if n == 2 or (n == 3 and (tier == "thorough" or nested == "anon")):
